@@ -17,7 +17,7 @@ pr = lambda m: printer.print_model(m, io.StringIO()).getvalue()
 COST_FORMS = ['{}', '{1}', '{1 USD}', '{USD}', '{{1}}', '{{1 USD}}', '{{USD}}', '{{}}', '{1 # 2 USD}', '{# 2 USD}', '{1 # USD}', '{1 #}', '{# 2}', '{1 # 2}',
               '{1, 2000-01-01}', '{2000-01-01, 1 USD, "l"}', '{*, 1 # 2 USD}', '{{1 USD, *}}', '{"l"}', '{{2000-01-01}}']
 FIELDS = ('number_per', 'number_total', 'currency')
-VALS = {'number_per': [None, D('3'), D('4.5')], 'number_total': [None, D('30'), D('7')], 'currency': [None, 'EUR', 'GBP']}
+VALS = {'number_per': [None, D('3'), D('4.5'), D('0')], 'number_total': [None, D('30'), D('7'), D('0.00')], 'currency': [None, 'EUR', 'GBP']}      # zero: in the domain, falsy in Python
 
 
 def cost_doc(form):
@@ -255,7 +255,7 @@ def run(prop, tier, seed):
                 for seq in seqs:
                     if n == 3 and rnd.random() > 0.25: continue
                     do(('cost', form, seq), cost_case, form, seq)
-        tsteps = [(f, v) for f in ('payee', 'narration') for v in (None, 'x', 'y "q"')]
+        tsteps = [(f, v) for f in ('payee', 'narration') for v in (None, 'x', 'y "q"', '')]
         for form in TXN_FORMS:
             for n in range(1, 4):
                 for seq in itertools.product(tsteps, repeat=n): do(('txn', form, seq), txn_case, form, seq)
